@@ -402,6 +402,72 @@ fn main() {
           }
         });
       }
+      "rep_recv_race" => {
+        // schedule from the solver: both callers read ReadyToReceive before either stores ReceivedRequest.
+        // Public API: a REP socket with two REQ clients that each sent a request; two tasks call recv(); the schedule
+        // point parks each caller after its state check until the other has arrived too (or 400 ms passed). Then ONE
+        // reply is sent and the clients are asked for theirs.
+        use rzmq::verif_facade::set_sched_hook;
+        use std::sync::atomic::{AtomicUsize, Ordering};
+        let rt = tokio::runtime::Builder::new_multi_thread().worker_threads(4).enable_all().build().unwrap();
+        let arrived = std::sync::Arc::new(AtomicUsize::new(0));
+        let a2 = arrived.clone();
+        let (oks, errs, at_point, replies) = rt.block_on(async move {
+          let ctx = rzmq::Context::new().unwrap();
+          let rep = ctx.socket(rzmq::SocketType::Rep).unwrap();
+          rep.set_option(rzmq::socket::options::RCVTIMEO, 1500i32).await.unwrap();
+          rep.bind("inproc://verif-rep-race").await.unwrap();
+          let mut reqs = Vec::new();
+          for i in 0..2u8 {
+            let r = ctx.socket(rzmq::SocketType::Req).unwrap();
+            r.set_option(rzmq::socket::options::RCVTIMEO, 700i32).await.unwrap();
+            r.connect("inproc://verif-rep-race").await.unwrap();
+            tokio::time::sleep(Duration::from_millis(100)).await;
+            r.send(rzmq::Msg::from_vec(vec![b'q', b'0' + i])).await.unwrap();
+            reqs.push(r);
+          }
+          tokio::time::sleep(Duration::from_millis(150)).await;
+          set_sched_hook(Some(Box::new(move |point: &str| {
+            if point == "RepSocket::recv:after-check" {
+              a2.fetch_add(1, Ordering::SeqCst);
+              let t0 = std::time::Instant::now();
+              while a2.load(Ordering::SeqCst) < 2 && t0.elapsed() < Duration::from_millis(400) {
+                std::thread::yield_now();
+              }
+            }
+          })));
+          let mut hs = Vec::new();
+          for _ in 0..2 {
+            let r = rep.clone();
+            hs.push(tokio::spawn(async move { r.recv().await }));
+          }
+          let (mut oks, mut errs) = (0, 0);
+          for h in hs {
+            match h.await.unwrap() {
+              Ok(_) => oks += 1,
+              Err(_) => errs += 1,
+            }
+          }
+          set_sched_hook(None);
+          // one reply per successful recv is what the application would now send
+          let mut sent = 0;
+          for _ in 0..oks {
+            if rep.send(rzmq::Msg::from_vec(b"reply".to_vec())).await.is_ok() {
+              sent += 1;
+            }
+          }
+          let mut replies = 0;
+          for r in &reqs {
+            if r.recv().await.is_ok() {
+              replies += 1;
+            }
+          }
+          let _ = sent;
+          (oks, errs, arrived.load(Ordering::SeqCst), replies)
+        });
+        println!("rep_recv_race ok={} err={} reached_point={} clients_answered={}", oks, errs, at_point, replies);
+        std::process::exit(0);
+      }
       "req_send_race" => {
         // schedule from the solver: both callers read ReadyToSend before either writes ExpectingReply.
         // Public API only (REQ connected to a REP over inproc); the schedule point parks each caller after its
